@@ -35,6 +35,8 @@ THEOREMS = [
     "Gwcs.Units.arrayIndexScaleOnly_eq",
     "Gwcs.Units.array_index_unit_independent",
     "Gwcs.Units.array_index_matches_twin",
+    "Gwcs.Units.removeQuantityOutput_bare",
+    "Gwcs.Units.mixed_outputs_converted",
 ]
 RULE = ("case = (WCS family: 1-D spectral / 1-D temporal / 2-D sky / 3-D sky+spectral cube / TAN imaging, units of the transform, units of the "
         "frames, units of the world inputs, sky frame of object inputs, point or array); each case builds the unit-carrying WCS and its "
